@@ -2,6 +2,7 @@ package props
 
 import (
 	"fmt"
+	"io"
 	"net"
 	"path/filepath"
 	"regexp"
@@ -132,6 +133,7 @@ func C01(r *core.Run) {
 			Tok, Method              string
 			RespSize, Delay, ReqSize int
 			Abort                    bool
+			AbortMid                 bool // the client walks away in the middle of a dribbled response
 		}
 		plans := make([][]plan, K)
 		n := perClient
@@ -154,6 +156,10 @@ func C01(r *core.Run) {
 				}
 				p.Delay = []int{0, 0, 1, 5, 20, 50}[rng.Intn(6)]
 				p.Abort = rng.Intn(25) == 0
+				if !p.Abort && rng.Intn(12) == 0 {
+					p.AbortMid = true
+					p.RespSize = 40000
+				}
 				plans[c] = append(plans[c], p)
 			}
 		}
@@ -186,6 +192,21 @@ func C01(r *core.Run) {
 						extra = nil
 					}
 					raw := tokRequest(p.Method, p.Tok, p.RespSize, p.Delay, "h"+p.Tok+".example", body, extra)
+					if p.AbortMid {
+						// read the beginning of a dribbled response, then disappear while the backend keeps producing
+						rawp := tokRequest(p.Method, p.Tok, p.RespSize, p.Delay, "h"+p.Tok+".example", body, append(extra, rawhttp.Field{Name: ":paced"}))
+						if conn, err := net.DialTimeout("tcp", t.addr, 5*time.Second); err == nil {
+							conn.Write(rawp)
+							conn.SetReadDeadline(time.Now().Add(3 * time.Second))
+							buf := make([]byte, 3000)
+							io.ReadAtLeast(conn, buf, 1500)
+							conn.Close()
+						}
+						mu.Lock()
+						results = append(results, result{tok: p.Tok, method: p.Method, size: p.RespSize, reqSize: p.ReqSize, aborted: true})
+						mu.Unlock()
+						continue
+					}
 					if p.Abort {
 						// send and walk away: the response must reach nobody else
 						if conn, err := net.DialTimeout("tcp", t.addr, 5*time.Second); err == nil {
